@@ -110,6 +110,9 @@ Section SubSlot.
   Lemma splace_inv st t d : SInv st -> SInv (splace st t d).
   Proof. intros H. exact H. Qed.
 
+  Lemma note_inv st t r s : SInv st -> SInv (note_booking st t r s).
+  Proof. intros H. exact H. Qed.
+
   Lemma swalk_inv t r e need off : 0 < e -> 0 <= off -> off <= G ->
     forall fuel slot done start st st' d,
       0 <= done -> done <= need -> SInv st ->
@@ -125,10 +128,12 @@ Section SubSlot.
       { unfold c1. destruct (Qeq_bool done 0); [|exact Hc0]. apply step_inv; [apply G_pos|split; assumption|exact Hc0]. }
       set (c2 := step G c1 (Book t None)) in *.
       assert (Hc2 : Inv G c2) by (apply step_inv; [apply G_pos|exact I|exact Hc1]).
-      destruct (Qle_bool (G - used c1) tol_avail || Nat.eqb (length (entries c2)) (length (entries c1))) eqn:Eb.
+      destruct (Qle_bool (G - used c1) tol_avail || Nat.eqb (length (entries c2)) (length (entries c1))
+                || negb (forallb (fun l => slimit_ok p st l slot) (slimits_of p t r))) eqn:Eb.
       + eapply IH; [exact Hd1|exact Hd2| |exact H]. apply set_cell_inv; [exact Hi|exact Hc1|intros _; exact Ew].
-      + destruct (Qle_bool (need - tol_done) (done + (G - used c1) * e)) eqn:Ef.
-        * injection H as <- _. apply set_cell_inv; [exact Hi| |intros _; exact Ew].
+      + apply orb_false_iff in Eb as [Eb _].
+        destruct (Qle_bool (need - tol_done) (done + (G - used c1) * e)) eqn:Ef.
+        * injection H as <- _. apply note_inv. apply set_cell_inv; [exact Hi| |intros _; exact Ew].
           refine (step_inv G c2 (Finish t (Qmin ((need - done) / e) G)) G_pos _ Hc2). cbn [op_ok].
           apply Q.min_glb; [|apply Qlt_le_weak, G_pos].
           apply Qle_shift_div_l; [exact He|]. rewrite Qmult_0_l. lra.
@@ -140,7 +145,7 @@ Section SubSlot.
           eapply IH; [| | |exact H].
           -- assert (0 <= (G - used c1) * e) by (apply Qmult_le_0_compat; [unfold tol_avail in Ha; lra|lra]). lra.
           -- unfold tol_done in Hf. lra.
-          -- apply set_cell_inv; [exact Hi|exact Hc2|intros _; exact Ew].
+          -- apply note_inv. apply set_cell_inv; [exact Hi|exact Hc2|intros _; exact Ew].
   Qed.
   (* ------------------------------------------------------------ what one walk does *)
   Lemma cells_set_same st r s c : cells (set_cell st r s c) r s = c.
@@ -150,6 +155,9 @@ Section SubSlot.
     intros H. cbn. destruct (Nat.eqb_spec r' r); [|reflexivity]. destruct (Nat.eqb_spec s' s); [|reflexivity].
     destruct H; contradiction.
   Qed.
+
+  Lemma cells_note st t r s : cells (note_booking st t r s) = cells st.
+  Proof. reflexivity. Qed.
 
   Lemma offset_used c off : used c <= used (step G c (Offset off)) /\ off <= used (step G c (Offset off)).
   Proof. cbn [step]. destruct (Qlt_le_dec (used c) off); cbn; lra. Qed.
@@ -192,7 +200,8 @@ Section SubSlot.
     assert (Ht1 : forall u, tent u c1 = tent u c0).
     { intros u. unfold c1. destruct (Qeq_bool done 0); [apply tent_offset|reflexivity]. }
     set (c2 := step G c1 (Book t None)) in *.
-    destruct (Qle_bool (G - used c1) tol_avail || Nat.eqb (length (entries c2)) (length (entries c1))) eqn:Eb.
+    destruct (Qle_bool (G - used c1) tol_avail || Nat.eqb (length (entries c2)) (length (entries c1))
+              || negb (forallb (fun l => slimit_ok p st l slot) (slimits_of p t r))) eqn:Eb.
     { (* nothing bookable in this slot *)
       assert (Hi1 : SInv (set_cell st r slot c1)) by (apply set_cell_inv; [exact Hi|exact Hc1|intros _; exact Ew]).
       destruct (IH (S slot) done start _ st' f e' Hd1 Hd2' Hi1 Hs0) as (s1 & x1 & rest & B); [|exact H|].
@@ -212,7 +221,7 @@ Section SubSlot.
           * now rewrite cells_set_other by (right; exact Hs).
           * now rewrite cells_set_other by (left; exact Hr). }
     (* the slot is booked *)
-    apply orb_false_iff in Eb as [Ea El].
+    apply orb_false_iff in Eb as [Eb _]. apply orb_false_iff in Eb as [Ea El].
     assert (Ha : tol_avail < G - used c1) by (apply Qnot_le_lt; intros Hle; apply Qle_bool_iff in Hle; congruence).
     destruct (book_cases G t c1) as [Hsame|(Hav & Hent & Hused)].
     { exfalso. fold c2 in Hsame. rewrite Hsame, Nat.eqb_refl in El. discriminate. }
@@ -221,7 +230,7 @@ Section SubSlot.
     assert (HaG : avail G c1 <= G) by (destruct Hc1 as (U1 & _); lra).
     destruct (Qle_bool (need - tol_done) (done + (G - used c1) * e)) eqn:Ef.
     - (* finished inside this slot *)
-      apply Qle_bool_iff in Ef. injection H as <- Hf He'.
+      apply Qle_bool_iff in Ef. injection H as <- Hf He'. rewrite ?cells_note.
       set (needed := Qmin ((need - done) / e) G) in *.
       set (c3 := step G c2 (Finish t needed)) in *.
       assert (Hrel : release_last t needed (entries c2) = Some (entries c1 ++ [(t, Qmin needed (avail G c1))], avail G c1, Qmin needed (avail G c1)))
@@ -258,12 +267,12 @@ Section SubSlot.
       split; [|split; [|split; [|split; [|split; [|split; [|split; [|split]]]]]]].
       + intros s x [Hin|[]]. injection Hin as <- <-. split; [lia|]. split; [lia|]. split; [exact Ew|]. split; [exact Hk0|].
         split; [unfold kept; pose proof (Q.le_min_r needed (avail G c1)); lra|]. split.
-        * rewrite cells_set_same. unfold tent. rewrite Hc3, filter_app. cbn [filter fst]. rewrite Nat.eqb_refl.
+        * rewrite ?cells_note, cells_set_same. unfold tent. rewrite Hc3, filter_app. cbn [filter fst]. rewrite Nat.eqb_refl.
           fold (tent t c1). now rewrite Ht1.
         * rewrite <- He'. pose proof (wf_G p Hwf). nia.
       + constructor; [intros []|constructor].
-      + intros r' s' Hrs. rewrite cells_set_other; [reflexivity|]. destruct Hrs as [Hr|Hs]; [now left|]. right. intros ->. apply Hs. now left.
-      + intros u r' s' Hu.
+      + intros r' s' Hrs. rewrite ?cells_note, cells_set_other; [reflexivity|]. destruct Hrs as [Hr|Hs]; [now left|]. right. intros ->. apply Hs. now left.
+      + intros u r' s' Hu. rewrite ?cells_note.
         destruct (Nat.eq_dec r' r) as [->|Hr]; [destruct (Nat.eq_dec s' slot) as [->|Hs]|].
         * rewrite cells_set_same. unfold c3. rewrite tent_finish_other by exact Hu. unfold c2. rewrite tent_book_other by exact Hu. apply Ht1.
         * now rewrite cells_set_other by (right; exact Hs).
@@ -285,13 +294,13 @@ Section SubSlot.
       assert (Hf : ~ need - tol_done <= done + (G - used c1) * e) by (intros Hle; apply Qle_bool_iff in Hle; congruence).
       apply Qnot_le_lt in Hf.
       assert (Hae : 0 < (G - used c1) * e) by (apply Qmult_lt_0_compat; [unfold tol_avail in Ha; lra|exact He]).
-      assert (Hi2 : SInv (set_cell st r slot c2)) by (apply set_cell_inv; [exact Hi|exact Hc2|intros _; exact Ew]).
+      assert (Hi2 : SInv (note_booking (set_cell st r slot c2) t r slot)) by (apply note_inv, set_cell_inv; [exact Hi|exact Hc2|intros _; exact Ew]).
       set (start' := match start with Some s => s | None => (Z.of_nat slot * sp_G p + Qfloor off)%Z end) in *.
       assert (Hoffb : (0 <= Qfloor off < sp_G p)%Z).
       { split.
         - rewrite <- (Qfloor_Z 0). apply Qfloor_resp_le. exact Ho1.
         - pose proof (Qfloor_le off) as F. rewrite Zlt_Qlt. lra. }
-      destruct (IH (S slot) (done + (G - used c1) * e) (Some start') (set_cell st r slot c2) st' f e') as (s1 & x1 & rest & B);
+      destruct (IH (S slot) (done + (G - used c1) * e) (Some start') (note_booking (set_cell st r slot c2) t r slot) st' f e') as (s1 & x1 & rest & B);
         [lra|unfold tol_done in Hf; lra|exact Hi2|discriminate| |exact H|].
       { intros s0 [= <-]. unfold start'. destruct start as [s0|].
         - specialize (Hs1 s0 eq_refl). pose proof (wf_G p Hwf). nia.
@@ -304,17 +313,17 @@ Section SubSlot.
       split; [|split; [|split; [|split; [|split; [|split; [|split; [|split]]]]]]].
       + intros s x [Hin|Hin].
         * injection Hin as <- <-. split; [lia|]. split; [lia|]. split; [exact Ew|]. split; [exact Hav|]. split; [exact HaG|]. split.
-          -- rewrite (B4 r slot) by (right; exact Hnot). rewrite cells_set_same. unfold tent. rewrite Hent, filter_app.
+          -- rewrite (B4 r slot) by (right; exact Hnot). rewrite ?cells_note, cells_set_same. unfold tent. rewrite Hent, filter_app.
              cbn [filter fst]. rewrite Nat.eqb_refl. fold (tent t c1). now rewrite Ht1.
           -- destruct (B2 s1 x1 (or_introl eq_refl)) as (A1 & _ & _ & _ & _ & _ & A7). pose proof (wf_G p Hwf). nia.
         * destruct (B2 s x Hin) as (A1 & A2 & A3 & A4 & A5 & A6 & A7).
           split; [lia|]. split; [lia|]. split; [exact A3|]. split; [exact A4|]. split; [exact A5|]. split; [|exact A7].
-          rewrite A6. rewrite cells_set_other by (right; lia). reflexivity.
+          rewrite A6. rewrite ?cells_note, cells_set_other by (right; lia). reflexivity.
       + cbn [map fst]. constructor; [exact Hnot|exact B3].
       + intros r' s' Hrs. rewrite B4.
-        * apply f_equal. apply cells_set_other. destruct Hrs as [Hr|Hs]; [now left|]. right. intros ->. apply Hs. now left.
+        * rewrite ?cells_note. apply f_equal. apply cells_set_other. destruct Hrs as [Hr|Hs]; [now left|]. right. intros ->. apply Hs. now left.
         * destruct Hrs as [Hr|Hs]; [now left|]. right. intros Hin. apply Hs. now right.
-      + intros u r' s' Hu. rewrite (B5 u r' s' Hu).
+      + intros u r' s' Hu. rewrite (B5 u r' s' Hu). rewrite ?cells_note.
         destruct (Nat.eq_dec r' r) as [->|Hr]; [destruct (Nat.eq_dec s' slot) as [->|Hs]|].
         * rewrite cells_set_same. unfold c2. rewrite tent_book_other by exact Hu. apply Ht1.
         * now rewrite cells_set_other by (right; exact Hs).
@@ -444,7 +453,7 @@ Section SubSlot.
   Proof.
     induction fuel as [|fuel IH]; intros slot done start st st' d H; cbn [swalk] in H; [now injection H as <- _|].
     destruct (sr_work (sres_of p r) slot); [|eapply IH; eassumption].
-    destruct (Qle_bool _ _ || _); [apply IH in H; exact H|].
+    destruct (_ || _ || _); [apply IH in H; exact H|].
     destruct (Qle_bool _ _); [now injection H as <- _|apply IH in H; exact H].
   Qed.
 
@@ -463,11 +472,11 @@ Section SubSlot.
       - rewrite cells_set_same. exact Hc.
       - now rewrite cells_set_other by (right; exact Hs).
       - now rewrite cells_set_other by (left; exact Hr). }
-    destruct (Qle_bool _ _ || _).
+    destruct (_ || _ || _).
     - rewrite (IH _ _ _ _ _ _ H u r' s' Hu). now apply Hset.
     - destruct (Qle_bool _ _).
-      + injection H as <- _. apply Hset. rewrite tent_finish_other, tent_book_other by exact Hu. exact Ht1.
-      + rewrite (IH _ _ _ _ _ _ H u r' s' Hu). apply Hset. rewrite tent_book_other by exact Hu. exact Ht1.
+      + injection H as <- _. rewrite cells_note. apply Hset. rewrite tent_finish_other, tent_book_other by exact Hu. exact Ht1.
+      + rewrite (IH _ _ _ _ _ _ H u r' s' Hu). rewrite cells_note. apply Hset. rewrite tent_book_other by exact Hu. exact Ht1.
   Qed.
   Local Transparent step.
 
@@ -617,6 +626,79 @@ Section SubSlot.
      the slot without overlapping.  C02 (sub-slot): entries exist in working slots only. *)
   Theorem sschedule_inv : SInv (sschedule p).
   Proof. unfold sschedule. apply sloop_inv, sprepass_inv. Qed.
+  (* ------------------------------------------------------------ C05: limits count bookings *)
+  Definition LInv (st : sstate) : Prop := forall l k, (susage p st l k <= sl_value (slim_of p l))%nat.
+
+  Lemma scounts_limits_of l t r s : scounts p l (t, r, s) = true -> In l (slimits_of p t r).
+  Proof.
+    unfold scounts, slimits_of. intros H. apply in_or_app. apply orb_true_iff in H as [H|H].
+    - left. apply existsb_exists in H as (x & Hx & E). apply Nat.eqb_eq in E. now subst.
+    - right. apply andb_true_iff in H as [H1 H2]. apply existsb_exists in H1 as (x & Hx & E).
+      apply Nat.eqb_eq in E. subst x. apply filter_In. split; [exact Hx|exact H2].
+  Qed.
+
+  Lemma note_linv st st0 t r s : sbooked st = sbooked st0 -> LInv st0 ->
+    forallb (fun l => slimit_ok p st0 l s) (slimits_of p t r) = true -> LInv (note_booking st t r s).
+  Proof.
+    intros Hb Hi Hok l k. unfold susage. cbn [note_booking sbooked filter]. rewrite Hb.
+    destruct (scounts p l (t, r, s)) eqn:Ec; cbn [andb]; [|apply Hi].
+    cbn [snd]. destruct (Z.eqb_spec (sl_period (slim_of p l) s) k) as [<-|Hne]; [|apply Hi].
+    apply scounts_limits_of in Ec. rewrite forallb_forall in Hok. specialize (Hok l Ec).
+    unfold slimit_ok in Hok. apply Nat.ltb_lt in Hok. cbn [length]. unfold susage in Hok. lia.
+  Qed.
+
+  Local Opaque step.
+  Lemma swalk_linv t r e need off : forall fuel slot done start st st' d,
+    LInv st -> swalk p t r e need off fuel slot done start st = (st', d) -> LInv st'.
+  Proof.
+    induction fuel as [|fuel IH]; intros slot done start st st' d Hi H; cbn [swalk] in H; [now injection H as <- _|].
+    destruct (sr_work (sres_of p r) slot); [|eapply IH; eassumption].
+    destruct (_ || _ || negb (forallb (fun l => slimit_ok p st l slot) (slimits_of p t r))) eqn:Eb.
+    - eapply IH; [|exact H]. exact Hi.
+    - apply orb_false_iff in Eb as [_ El]. apply negb_false_iff in El.
+      destruct (Qle_bool _ _).
+      + injection H as <- _. eapply note_linv; [reflexivity|exact Hi|exact El].
+      + eapply IH; [|exact H]. eapply note_linv; [reflexivity|exact Hi|exact El].
+  Qed.
+  Local Transparent step.
+
+  Lemma sschedule_task_linv st t : LInv st -> LInv (sschedule_task p st t).
+  Proof.
+    intros Hi. unfold sschedule_task. cbn zeta.
+    destruct ((sbound p st t <? 0)%Z || (Z.of_nat (sp_upper p) <? sbound p st t / sp_G p)%Z); [exact Hi|].
+    destruct (s_mile (stask_of p t)); [exact Hi|].
+    destruct (swalk p t _ _ _ _ _ _ 0 None st) as [st' d] eqn:Ew.
+    pose proof (swalk_linv _ _ _ _ _ _ _ _ _ _ _ _ Hi Ew) as Hi'. destruct d; exact Hi'.
+  Qed.
+
+  Lemma sloop_linv : forall fuel work st, LInv st -> LInv (sloop p fuel work st).
+  Proof.
+    induction fuel as [|fuel IH]; intros work st Hi; cbn [sloop]; [exact Hi|].
+    destruct (spick p st work) as [[t rest]|]; [|exact Hi]. apply IH. now apply sschedule_task_linv.
+  Qed.
+
+  Lemma sprepass_booked : sbooked (sprepass p) = [].
+  Proof.
+    unfold sprepass. generalize (seq 0 (length (sp_tasks p))). intros l.
+    assert (H : forall st, sbooked st = [] -> sbooked (fold_left (fun st t => let k := stask_of p t in
+                         if s_leaf k && s_mile k
+                         then match s_pin k with
+                              | Some s => if (0 <=? s)%Z && (s / sp_G p <=? Z.of_nat (sp_upper p))%Z then splace st t (s, s) else st
+                              | None => st end
+                         else st) l st) = []).
+    { induction l as [|u l IH]; intros st Hs; cbn [fold_left]; [exact Hs|]. apply IH. cbn zeta.
+      destruct (s_leaf _ && s_mile _); [|exact Hs]. destruct (s_pin _) as [s|]; [|exact Hs].
+      destruct ((0 <=? s)%Z && _); exact Hs. }
+    now apply H.
+  Qed.
+
+  (* C05 (seconds): in every period every limit counts at most its value of bookings - a booking is one
+     (task, resource, slot) event whatever part of the slot it uses, exactly what Limit.inc counts *)
+  Theorem subslot_limits : LInv (sschedule p).
+  Proof.
+    unfold sschedule. apply sloop_linv. intros l k. unfold susage. rewrite sprepass_booked. cbn. lia.
+  Qed.
+
   (* ------------------------------------------------------------ the whole run *)
   Lemma sloop_JS : forall fuel work st, SInv st -> JS st work -> exists rest, JS (sloop p fuel work st) rest.
   Proof.
